@@ -1,0 +1,12 @@
+//go:build verif
+
+package gcsutil
+
+// Contracts for contract-based deductive verification (checked by /verif/govc).
+// This file contains comments only and is compiled only with the build tag "verif".
+
+// Run executes f zero or one time while holding the key lock; callers in gcsemu rely on this contract.
+//@ func (l *TransientLockMap) Run
+//@   property C19 C07
+//@   requires f != nil
+//@   modifies *
